@@ -134,7 +134,7 @@ def verus(path, rlimit=None, extra=None):
     return rc, j, diags, se, dt, " ".join(cmd)
 
 
-def classify(diags, mp):
+def classify(diags, mp, unit_name=""):
     """-> (failures: list of dict(region, rid, msg, rendered), undecided_reasons: list)"""
     fails, undec = [], []
     for d in diags:
@@ -147,10 +147,17 @@ def classify(diags, mp):
         spans = d.get("spans", [])
         if any(k in msg for k in SOLVER_BUDGET):
             line = next((s["line_start"] for s in spans if s.get("is_primary")), 0)
-            undec.append(("solver-budget", msg, region_id(region_of(mp, line))))
+            rg = region_of(mp, line)
+            # the budget was exhausted somewhere inside this function: every tagged region of the function is affected
+            bp = set()
+            if rg is not None and rg.get("item"):
+                for r3 in mp["regions"]:
+                    if r3.get("item") == rg["item"]:
+                        bp |= set(r3["props"])
+            undec.append(("solver-budget", msg, region_id(rg), sorted(bp)))
             continue
         if d.get("code") is not None or any(k in msg for k in UNSUPPORTED) or not spans:
-            undec.append(("unsupported-or-compile-error", msg.splitlines()[0][:200], ""))
+            undec.append(("unsupported-or-compile-error", msg.splitlines()[0][:200], "", []))
             continue
         # the span that names the obligation
         sp = None
@@ -172,6 +179,13 @@ def classify(diags, mp):
                 rid = rid + "@" + r2["item"]
                 break
         props = set(r["props"]) if r else set()
+        if UNITS.get(unit_name, {}).get("attribute_to_impl") and r is not None and r.get("item", "").startswith("trait"):
+            # in this unit a failed trait-level clause is the business of the implementing function only
+            for s2 in spans:
+                r2 = region_of(mp, s2["line_start"])
+                if r2 is not None and r2.get("kind") in ("fn-body", "loop-clause") and r2.get("item") != r.get("item"):
+                    props = set()
+                    break
         for s2 in spans:
             r2 = region_of(mp, s2["line_start"])
             # a clause that lives in a trait declaration also carries the tags of the implementing function
@@ -183,33 +197,73 @@ def classify(diags, mp):
 
 
 def verify_unit(unit, tier):
+    """Run Verus on the assembled unit. A unit may list several option sets (`verus_arg_sets`): an obligation is
+    discharged if any run discharges it; it fails if some run refutes it and none discharges it; otherwise it is
+    a solver-budget case (undecided)."""
     t0 = time.time()
     path, mp = assemble(unit)
-    rc, j, diags, raw, dt, cmd = verus(path)
-    if j is None:
-        raise Undecided("verus produced no JSON for unit %s: %s" % (unit, raw[-400:]))
-    fails, undec = classify(diags, mp)
-    attempts = 1
+    arg_sets = UNITS[unit].get("verus_arg_sets") or [UNITS[unit].get("verus_args") or []]
+
+    def one(extra, rlimit=None):
+        rc, j, diags, raw, dt, cmd = verus(path, rlimit=rlimit, extra=list(extra))
+        if j is None:
+            raise Undecided("verus produced no JSON for unit %s: %s" % (unit, raw[-400:]))
+        fails, undec = classify(diags, mp, unit)
+        return {"j": j, "fails": fails, "undec": undec, "cmd": cmd, "dt": dt}
+
+    with concurrent.futures.ThreadPoolExecutor(max_workers=4) as ex:
+        runs = list(ex.map(one, arg_sets))
+    attempts = len(runs)
     # a failure must persist with a larger solver budget (guards against solver instability)
-    if (fails or any(u[0] == "solver-budget" for u in undec)) and not any(u[0] != "solver-budget" for u in undec):
-        rc2, j2, diags2, raw2, dt2, cmd2 = verus(path, rlimit=60)
-        attempts = 2
-        if j2 is not None:
-            fails2, undec2 = classify(diags2, mp)
-            keep = {f["rid"] for f in fails2}
-            fails = [f for f in fails if f["rid"] in keep]
-            undec = undec2
-            j, dt = j2, dt + dt2
+    need_retry = any(r["fails"] or any(u[0] == "solver-budget" for u in r["undec"]) for r in runs) and not any(
+        any(u[0] != "solver-budget" for u in r["undec"]) for r in runs)
+    if need_retry and len(arg_sets) == 1:
+        runs.append(one(arg_sets[0], rlimit=60))
+        attempts += 1
+    # combine per obligation
+    hard_undec = [u for r in runs for u in r["undec"] if u[0] != "solver-budget"]
+    fail_by_rid, budget_rids = {}, set()
+    for r in runs:
+        for f in r["fails"]:
+            fail_by_rid.setdefault(f["rid"], []).append(f)
+        for u in r["undec"]:
+            if u[0] == "solver-budget":
+                budget_rids.add(u[2])
+    fails, undec = [], list(hard_undec)
+    nruns = len(runs)
+
+    def item_of(rid):
+        return rid.split("@")[1] if "@" in rid else rid.split("#")[0]
+
+    def budget_items(r):
+        return {item_of(u[2]) for u in r["undec"] if u[0] == "solver-budget"}
+
+    refuted_items = set()
+    for rid, fl in fail_by_rid.items():
+        it = item_of(rid)
+        # discharged in some run = that run neither refuted this obligation nor ran out of budget in its function
+        bad = sum(1 for r in runs if any(f["rid"] == rid for f in r["fails"]) or it in budget_items(r))
+        if bad == nruns:
+            fails.append(fl[0])
+            refuted_items.add(it)
+    for rid in budget_rids:
+        it = item_of(rid)
+        out_everywhere = all(it in budget_items(r) or any(item_of(f["rid"]) == it for f in r["fails"]) for r in runs)
+        if out_everywhere and it not in refuted_items:
+            bp = sorted({p for r in runs for u in r["undec"] if u[0] == "solver-budget" and u[2] == rid for p in u[3]})
+            undec.append(("solver-budget", "resource limit exceeded in every run", rid, bp))
+    j = runs[0]["j"]
     res = j.get("verification-results", {})
     funcs = []
-    for m in j.get("times-ms", {}).get("smt", {}).get("smt-run-module-times", []):
-        for fb in m.get("function-breakdown", []):
-            funcs.append({"function": fb["function"], "ms": round(fb.get("time-micros", 0) / 1000.0, 2),
-                          "rlimit": fb.get("rlimit"), "success": fb.get("success")})
-    return {"unit": unit, "path": path, "map": mp, "fails": fails, "undecided": undec, "verified": res.get("verified", 0),
-            "errors": res.get("errors", 0), "functions": funcs, "cmd": cmd, "wall": time.time() - t0,
+    for r in runs:
+        for m in r["j"].get("times-ms", {}).get("smt", {}).get("smt-run-module-times", []):
+            for fb in m.get("function-breakdown", []):
+                funcs.append({"function": fb["function"], "ms": round(fb.get("time-micros", 0) / 1000.0, 2),
+                              "rlimit": fb.get("rlimit"), "success": fb.get("success")})
+    return {"unit": unit, "path": path, "map": mp, "fails": fails, "undecided": undec, "verified": max(r["j"].get("verification-results", {}).get("verified", 0) for r in runs),
+            "errors": res.get("errors", 0), "functions": funcs, "cmd": " ; ".join(r["cmd"] for r in runs), "wall": time.time() - t0,
             "attempts": attempts, "sha": hashlib.sha256(open(path, "rb").read()).hexdigest()[:16],
-            "vir_error": res.get("encountered-vir-error", False)}
+            "vir_error": any(r["j"].get("verification-results", {}).get("encountered-vir-error", False) for r in runs)}
 
 
 # --------------------------------------------------------------------------- trust scan
@@ -298,7 +352,7 @@ def main():
             canary_ok = False
         for rg in mp["regions"]:
             if pid in rg["props"]:
-                if rg["kind"] in ("fn-sig", "item") or (rg["kind"] == "clause" and not rg["clause"]):
+                if rg["kind"] in ("fn-sig", "item", "assumed-clause") or (rg["kind"] == "clause" and not rg["clause"]):
                     continue
                 rid = region_id(rg)
                 if rid not in [o["id"] for o in obligations if o["unit"] == r["unit"]]:
@@ -320,6 +374,8 @@ def main():
             else:
                 foreign_fail.append((r["unit"], rid))
         for u in r["undecided"]:
+            if u[0] == "solver-budget" and u[3] and pid not in u[3] and ("~" + pid) not in u[3]:
+                continue  # a function that carries no clause of this property ran out of budget: not this property's concern
             undec_reasons.append("%s: %s %s %s" % (r["unit"], u[0], u[1], u[2]))
         if r["vir_error"]:
             undec_reasons.append("%s: verus reported a VIR error" % r["unit"])
